@@ -8,9 +8,11 @@ package memnet
 
 import (
 	"errors"
+	"fmt"
 	"io"
 	"net"
 	"sync"
+	"sync/atomic"
 	"syscall"
 	"time"
 )
@@ -77,11 +79,15 @@ type Conn struct {
 	OnClose func()
 }
 
-// Pipe returns the two ends of a fresh connection.
+var pipeSeq atomic.Int64
+
+// Pipe returns the two ends of a fresh connection (addresses are unique per pipe).
 func Pipe() (*Conn, *Conn) {
 	ab, ba := newPipe(), newPipe()
-	a := &Conn{rd: ba, wr: ab, local: "memnet-a", remote: "memnet-b", done: make(chan struct{})}
-	b := &Conn{rd: ab, wr: ba, local: "memnet-b", remote: "memnet-a", done: make(chan struct{})}
+	n := pipeSeq.Add(1)
+	ca, cb := addr(fmt.Sprintf("memnet-client-%d", n)), addr(fmt.Sprintf("memnet-server-%d", n))
+	a := &Conn{rd: ba, wr: ab, local: ca, remote: cb, done: make(chan struct{})}
+	b := &Conn{rd: ab, wr: ba, local: cb, remote: ca, done: make(chan struct{})}
 	return a, b
 }
 
@@ -335,4 +341,12 @@ func (l *Listener) DialPair() (client, server *Conn, err error) {
 	case <-l.done:
 		return nil, nil, ErrRefused
 	}
+}
+
+// SetPeerWindow bounds how many unread bytes may sit in the direction READ by this end
+// (i.e. written by the peer): the peer's writes block while this end does not read.
+func (c *Conn) SetPeerWindow(n int) {
+	c.rd.mu.Lock()
+	c.rd.window = n
+	c.rd.mu.Unlock()
 }
